@@ -89,7 +89,7 @@ Next == IF Mode = "fidelity" THEN FidelityNext ELSE MonitorNext
 
 Judge == \/ ok
          \/ Mode = "fidelity" /\ ~PrintT(<<"VF", "DRIFT", node>>)
-         \/ Mode # "fidelity" /\ ((Target # "" /\ lastIn.sig # Target) \/ ~PrintT(<<"VF", "BAD", node, lastIn.sig, gmon.wait, gmon.pert, gmon.cnt>>))
+         \/ Mode # "fidelity" /\ ((Target # "" /\ lastIn.sig # Target) \/ ~PrintT(<<"VF", "BAD", node, lastIn.sig>>))
 
 ASSUME \A n \in 1..Len(G) : G[n].id = n /\ \A j \in 1..Len(G[n].succ) : G[n].succ[j][5] \in 1..Len(G)
 ASSUME PrintT(<<"VF", "GRAPH", Len(G), NG>>)
